@@ -309,9 +309,11 @@ def main():
     ck.add_group("merge_result", len(mcases), len(mcases), mdesc[7:9])
 
     # ------------------------------------------------- G3: apply_path / context
-    ctx = {"Execution": {"Id": "arn:x", "Input": {"k": [1, 2]}}, "State": {"Name": "S"}, "Map": {"Item": {"Index": 0}}}
+    ctx = {"Execution": {"Id": "arn:x", "Input": {"k": [1, 2], "Task": {"Token": "plain text"}, "Jobs": [{"Task": {"Token": 7}}]}}, "State": {"Name": "S"}, "Map": {"Item": {"Index": 0}}}
     cases, descs = [], []
-    plist = ["$", "$$", "$$.Execution.Id", "$$.Execution.Input.k[1]", "$$.State.Name", "$$.Nope", "$.a", "a", "", "x$", "$$$"]
+    plist = ["$", "$$", "$$.Execution.Id", "$$.Execution.Input.k[1]", "$$.State.Name", "$$.Nope", "$.a", "a", "", "x$", "$$$",
+             # members that merely are called Task.Token further down are ordinary data (only $$.Task.Token itself is the opaque token)
+             "$$.Execution.Input.Task.Token", "$$.Execution.Input.Jobs[0].Task.Token", "$$.Execution.Input.Task"]
     for doc in docs[:80]:
         for p in plist + [None]:
             c0 = copy.deepcopy(ctx)
